@@ -54,6 +54,22 @@ add("C12","exploration",
     "Runtime monitoring of isolation: random interleavings of operations on 2-5 iterators of one Scanner (or of two scanners sharing a cached compilation), early drops and Scanner::set_mode; the projection onto each iterator must equal its solo replay on a fresh uncached scanner.",
     "Solo replay on the baseline path is the reference.",
     "solo-replay oracle over interleaved multi-iterator histories", "DESIGN.md 6/C12")
+add("C02","translation_validation",
+    "Per program exact, over programs sampled: every automaton the real compiler produced for a program (hook dump of a real build) is validated against the program's patterns for ALL strings by exploring the product with a Brzozowski-derivative reference automaton over the alphabet partition (atoms) induced by the compiled class predicates observed on all 1,112,064 scalar values and the IR's classes. Programs: generated, systematic small terms, repository corpora.",
+    "Trusted: the reference side (IR class evaluator, derivative automaton, cross-checked with the denotational matcher in the self-test), regex-syntax for converting corpus patterns, hook H1 reporting the automaton faithfully (C18 cross-checks it against the DOT export). Named classes calibrated on the scanner (C08). Budget 300000 product states per automaton; exceeding it is inconclusive, never held.",
+    "translation validation of recorded artefacts of real builds (offline checker over hook dumps), per-program exact product exploration", "DESIGN.md 4.4, 6/C02")
+add("C03","translation_validation",
+    "Every (before, after) automaton pair recorded from the real minimizer during real builds is checked for equivalence for all strings by on-the-fly determinisation of both over the class ids (a difference there is re-checked over characters with the class predicates before it counts), plus start-state preservation and |after| <= |before|.",
+    "Trusted: hook H2 records the automaton handed to and returned by Minimizer::minimize; the pair checker. Symbol-level equality is sufficient for character-level equality.",
+    "offline equivalence checker over recorded (input, output) pairs of the minimizer", "DESIGN.md 4.4, 6/C03")
+add("C15","exploration",
+    "Runtime monitoring of build totality and rejection: random token soup over the regex meta-alphabet built in worker subprocesses (abort/stack overflow observed and attributed), supported patterns with one documented-unsupported construct planted at a random depth/position (must be rejected by build and build_uncached), and supported-only patterns (must build).",
+    "The generator knows the class of every string it plants; regex-syntax decides what a syntax error is; repetition counts bounded (product <= 4096).",
+    "oracle by construction over generated build requests, subprocess sharding for abort detection", "DESIGN.md 6/C15")
+add("C16","exploration",
+    "Runtime monitoring of serialization: equality after to_string/from_str for hostile mode lists and for Span/Match/Position/MatchExt values, README layout written by an independent writer accepted and equal, behavioural twin (token streams and compiled automata of scanners built from x and from its round trip).",
+    "serde_json is trusted as JSON implementation; the independent README-layout writer of the harness.",
+    "round-trip equality + behavioural twin monitor", "DESIGN.md 6/C16")
 manifest = {
  "version": 1,
  "setup_cmd": "./check setup",
